@@ -1132,6 +1132,9 @@ def run(ctx):
     rep.floor('C09.R2', 9, 'cclinit/cclnegate (cclng), ccladd/ccl2ecl (ccltbl), qsort/mkeccl escapes, nlch, two flag arrays')
     rep.floor('C09.R3', 340, 'per yylineno variant: guarded sites + yylex/yyunput/yyinput shapes (+4 regions in own probes); one per variant without')
     rep.floor('C09.R4', 2, 'M4_HOOK_CHAR_FORWARD and M4_HOOK_CHAR_REWIND in finish_rule')
+    import c09_tbl
+    rep.setcount('eol_table_rules', c09_tbl.run(ctx, rep))
+    rep.floor('C09.R6', 20, 'newline-capable rules of the language probes x 2 table representations')
     rep.floor('C09.R5', 7, 'two table bodies, agreement, length, two call sites under do_yylineno, fwrite')
     rep.undecided += ['the numeric value of yylineno for any input or history',
                       'that rule_has_nl[] is exact (it may over-approximate: a flagged rule that never matches newline only costs time)',
